@@ -178,6 +178,11 @@ pub fn judge(id: &str, j: &Judged, ctx: &Ctx) -> CaseOut {
     // its in-flight attempts are truncated, so the per-attempt oracles do not apply.
     if log.end == RunEnd::Completed {
         all.extend(own);
+    } else if let ("C02", RunEnd::EscapedPanic(p)) = (id, &log.end) {
+        // C02's own clause: a panicking step / hook / World creation is *Failed with the payload*
+        // and the attempt still reaches Finished. A payload that left the stream did neither.
+        let open: Vec<String> = m.attempts.iter().filter(|a| a.finished.is_none()).map(|a| format!("{}{:?}", a.scenario, a.retries)).collect();
+        all.push(Violation::new("C02/panic-not-reported-as-failed", format!("the panic `{p}` of a user callback left the event stream instead of becoming a Failed event; attempts left without Finished: {open:?}")));
     }
     // labels
     if case.lazy {
